@@ -151,6 +151,24 @@ def slTable {γ : Type} (zero : γ) (f : Nat → γ) (n : Nat) (pts : List Nat) 
     (splitIdx n pts).foldl (fun t ch => assignRows t ch (ch.map f)) (List.replicate n zero)
   else (List.range n).map f
 
+/-- element conversion of `RDM[chunks, :] = rows` (round 4).  The pre-allocated table is
+    `np.zeros(shape, <further arguments>)`; with no further argument (`Gen.C19.bufferExtraArgs = 0`,
+    read off the source) it is numpy's default float64 buffer, which stores every float64 /
+    float32 RDM value unchanged; with a `dtype` argument every written value passes through the
+    conversion `conv` of that element type (an arbitrary parameter: truncation to an integer,
+    rounding to single precision, …) -/
+def bufferStore {γ : Type} (conv : γ → γ) : γ → γ :=
+  if Rsa.Gen.C19.bufferExtraArgs = 0 then id else conv
+
+/-- `slTable` with the element conversion of the buffer made explicit: only the chunked branch
+    writes into a pre-allocated table, the plain branch returns `calc_rdm`'s array itself -/
+def slTableStore {γ : Type} (conv : γ → γ) (zero : γ) (f : Nat → γ) (n : Nat) (pts : List Nat) :
+    List γ :=
+  if Rsa.Gen.C19.chunked n then
+    (splitIdx n pts).foldl (fun t ch => assignRows t ch ((ch.map f).map (bufferStore conv)))
+      (List.replicate n zero)
+  else (List.range n).map f
+
 /-- `data_2d[:, nb]` -/
 def selectCols {α : Type} [Zero α] (data : List (List α)) (nb : List Nat) : List (List α) :=
   data.map (fun row => nb.map (fun j => row.getD j 0))
